@@ -26,7 +26,7 @@ RULE = ("direct cases = (site, start instant at one-second granularity incl. eve
 ASSUME = ["ECI->ECEF rotation of the repository at an exact datetime is trusted here (it is the subject of C04)", "reference ellipsoid constants shared with the repository"]
 SHARDS = {"quick": 4, "thorough": 16}
 BUDGET_S = {"quick": 90, "thorough": 1200}
-DECIDING = ["direct_position", "direct_velocity", "agent_position", "agent_lla", "db_position"]
+DECIDING = ["direct_position", "direct_velocity", "config_reuse", "agent_position", "agent_lla", "db_position"]
 MANIFEST = {
     "technique": "runtime monitoring: postcondition on Terrestrial.propagate and per-step/DB checks of ground agents in real Scenario runs against the ellipsoid definition",
     "level_text": "held on every executed (site, start instant, step, elapsed time): reported inertial state converts back to the configured Earth-fixed point within 1 m and its Earth-fixed velocity vanishes",
@@ -94,6 +94,15 @@ def direct_case(ctx, site, start: datetime, elapsed_list):
         state = dyn.propagate(ScenarioTime(prev), ScenarioTime(el), state)
         _check_state(ctx, state, start + timedelta(seconds=el), site, wit, "direct_position", "direct_velocity", "terrestrial")
         prev = el
+    # the same config object moved to another location (a site template swept over locations), and a deep copy of a used
+    # config moved: the configured location is what the object holds when it is converted
+    site2 = (-site[0] * 0.5 + 3.0, ((site[1] + 200.0) % 360.0) - 180.0, site[2] * 0.5 + 0.1)
+    wit2 = dict(wit, kind="direct-reuse", site2=list(site2))
+    cfg.latitude, cfg.longitude, cfg.altitude = site2
+    _check_state(ctx, cfg.toECI(start), start, site2, wit2, "config_reuse", None, "config-reassigned")
+    cp = cfg.model_copy(deep=True)
+    cp.latitude, cp.longitude, cp.altitude = site
+    _check_state(ctx, cp.toECI(start), start, site, wit2, "config_reuse", None, "config-copied")
 
 
 def scenario_case(ctx, sites, start: datetime, step: int, nsteps: int, late=None):
@@ -122,7 +131,15 @@ def scenario_case(ctx, sites, start: datetime, step: int, nsteps: int, late=None
                 from resonaate.data.agent import AgentModel
 
                 app.database.insertData(AgentModel(unique_id=sid, name=f"S{sid}"))
-                app.addSensor(sk.ground_sensor_cfg(sid, late[1][0], late[1][1], late[1][2], kind="adv_radar"), 1)
+                running = app.scenario_config.engines[0].sensors[0]
+                if (late[0] + len(sites)) % 2 == 0:
+                    app.addSensor(sk.ground_sensor_cfg(sid, late[1][0], late[1][1], late[1][2], kind="adv_radar"), 1)
+                else:
+                    # the config object of a sensor that is already running, cloned and moved
+                    clone = running.model_copy(deep=True, update={"id": sid, "name": f"S{sid}"})
+                    clone.state.latitude, clone.state.longitude, clone.state.altitude = late[1]
+                    app.addSensor(clone, 1)
+                    ctx.count("late_sites_added_from_cloned_config")
                 ctx.count("late_sites_added")
             when = start + timedelta(seconds=k * step)
             for i, s in enumerate(sites):
@@ -172,7 +189,7 @@ def replay(ctx, w):
     from .. import scenario_kit as sk
 
     sk.init()
-    if w["kind"] == "direct":
+    if w["kind"] in ("direct", "direct-reuse"):
         direct_case(ctx, tuple(w["site"]), datetime.fromisoformat(w["start"]), w["elapsed"])
     else:
         scenario_case(ctx, [tuple(s) for s in w["sites"]], datetime.fromisoformat(w["start"]), w["step"], w["nsteps"],
